@@ -17,6 +17,7 @@ from ..index import Repo, AnchorError
 from ..cfg import CFG, ReachingDefs, path_of
 from ..astutil import unparse, call_name, func_params
 from .common import site
+from ..pattern import norm as pn
 
 LM = "cuqi/model/_model.py:LinearModel"
 
@@ -306,9 +307,25 @@ def _r6(chk, repo):
     ci = repo.cls(f"{TP}:Deconvolution2D")
     init = repo.method(ci, "__init__")[1]
     modes = set()
+    # every padding mode the constructor can hand to the pair: literals assigned to BC, or the values of the literal table BC is looked up in
+    # (a dict local to the constructor or at module level)
+    tables = {}
+    for scope in (init, repo.mod(TP).tree):
+        for n in (ast.walk(scope) if scope is init else scope.body):
+            if isinstance(n, ast.Assign) and len(n.targets) == 1 and isinstance(n.targets[0], ast.Name) and isinstance(n.value, ast.Dict) \
+                    and n.value.values and all(isinstance(v_, ast.Constant) for v_ in n.value.values):
+                tables[n.targets[0].id] = {v_.value for v_ in n.value.values}
     for n in ast.walk(init):
-        if isinstance(n, ast.Assign) and path_of(n.targets[0]) == "BC" and isinstance(n.value, ast.Constant):
-            modes.add(n.value.value)
+        if isinstance(n, ast.Assign) and path_of(n.targets[0]) == "BC":
+            v = n.value
+            if isinstance(v, ast.Constant):
+                modes.add(v.value)
+            elif isinstance(v, ast.Subscript) and isinstance(v.value, ast.Dict) and all(isinstance(x_, ast.Constant) for x_ in v.value.values):
+                modes |= {x_.value for x_ in v.value.values}
+            elif isinstance(v, ast.Subscript) and isinstance(v.value, ast.Name) and v.value.id in tables:
+                modes |= tables[v.value.id]
+            elif isinstance(v, ast.Call) and isinstance(v.func, ast.Attribute) and v.func.attr == "get" and isinstance(v.func.value, ast.Name) and v.func.value.id in tables:
+                modes |= tables[v.func.value.id]
     if not modes:
         raise AnchorError("Deconvolution2D: boundary-condition translation table not found")
     bad = sorted(m for m in modes if m not in ("constant", "wrap"))
@@ -324,7 +341,21 @@ def _r6(chk, repo):
             "for even PSF sizes the forward drops the FIRST row/column of the 'valid' convolution; the backward map reuses exactly this crop with the "
             "flipped PSF, whereas the transpose requires dropping the LAST row/column: adjoint != forward^T for every even PSF size", fwd_src)
     model = [n for n in ast.walk(init) if isinstance(n, ast.Assign) and path_of(n.targets[0]) == "model"]
-    ok = len(model) == 1 and _norm(model[0].value).startswith("cuqi.model.LinearModel(lambdax:_proj_forward_2D(x,P,BC),lambdax:_proj_backward_2D(x,P,BC),range_geometry,domain_geometry)")
+    # the two callables handed to LinearModel (lambdas or nested defs), compared by body: same PSF and padding mode on both sides
+    from ..pathtable import callable_text as _ct2
+    from .common import KwCanon as _KC2
+    ok = False
+    if len(model) == 1 and isinstance(model[0].value, ast.Call) and (call_name(model[0].value) or "").endswith("LinearModel"):
+        k2 = _KC2().add(call_name(model[0].value), repo.method(repo.cls(LM), "__init__")[1])
+        kw2 = {k_.arg: k_.value for k_ in k2.visit(__import__("copy").deepcopy(model[0].value)).keywords}
+        ldefs = {d.name: d for d in ast.walk(init) if isinstance(d, ast.FunctionDef) and d is not init}
+
+        def cb(e):
+            if isinstance(e, ast.Name) and e.id in ldefs:
+                e = ldefs[e.id]
+            return _ct2(e, pn) if e is not None else None
+        ok = cb(kw2.get("forward")) == "lambda _a0:_proj_forward_2D(_a0,P,BC)" and cb(kw2.get("adjoint")) == "lambda _a0:_proj_backward_2D(_a0,P,BC)" \
+            and pn(kw2.get("range_geometry", ast.Constant(value=None))) == "range_geometry" and pn(kw2.get("domain_geometry", ast.Constant(value=None))) == "domain_geometry"
     chk.add("C07-R6", f"{TP}:Deconvolution2D/model", ok, site(repo, init), "forward and adjoint share the same PSF and boundary mode",
             "forward and adjoint of the 2-D deconvolution model are not built on the same (PSF, boundary mode)", init)
 
